@@ -1,6 +1,6 @@
 (* C02 -- Rendering terminates and cannot be stalled by short input (partial: see MANIFEST level text). *)
 From Rimu Require Import Base Unicode Regex RegexAnalysis RegexParse Str Types Tables Guards State Inline Block
-  Frame FrameBlock FrameInst OptionsLemmas MiscLemmas MoreLemmas Plain TableFacts FuelMono.
+  Frame FrameBlock FrameInst OptionsLemmas MiscLemmas MoreLemmas Plain TableFacts FuelMono Termination.
 
 (* every regular expression of the source has star height <= 1, except the first Block Attributes pattern and the three
    attribute scans of injectHtmlAttributes, which step over quoted values with two alternatives that start differently *)
@@ -57,6 +57,36 @@ Print Assumptions C02_no_macro_definitions.
 Theorem C02_fuel_monotone : forall n m src o s, (n <= m)%nat -> api_render n src o s <> Fuel -> api_render m src o s = api_render n src o s.
 Proof. exact fuel_monotone. Qed.
 Print Assumptions C02_fuel_monotone.
+
+(* spans.render terminates: with fuel four more than the length of its source it returns (or raises) -- for every source, whenever
+   no replacement definition can match the empty string and every group a template hands to a nested spans.render (`$$n`, and
+   every `$n` once a `$$` has switched spans on) begins strictly after the start of its match; the quotes must be non-empty.
+   The condition is decidable ([term_okb]), holds of the generated default definitions, and is what the self-matching
+   definition of the known finding lacks (C02_ex_self_matching) *)
+Theorem C02_spans_terminate : forall s n source, term_okb s = true -> (length source + 4 <= n)%nat ->
+  spans_render n s source <> Fuel.
+Proof. intros s n source H. apply spans_render_not_fuel. apply term_okb_spec. exact H. Qed.
+Print Assumptions C02_spans_terminate.
+
+Theorem C02_default_definitions_terminate : term_okb (ienv_of (document_init S0)) = true.
+Proof. vm_compute. reflexivity. Qed.
+Print Assumptions C02_default_definitions_terminate.
+
+(* a capture the analysis accepts is strictly shorter than the subject of the search *)
+Theorem C02_group_strictly_shorter : forall r text m i, RegexSem.match_spec r text m -> (1 <= i)%nat ->
+  after1 i (re_ast r) = true -> text <> [] -> (length (grp_s m i) < length text)%nat.
+Proof. exact grp_s_strict. Qed.
+Print Assumptions C02_group_strictly_shorter.
+
+(* the known finding's definition  /(a+)/ = '<b>$$1</b>'  is rejected by the condition, and with it the model does run out of
+   fuel on "aaa" whatever the fuel tried here *)
+Example C02_ex_self_matching :
+  match parse_regex $"(a+)" false false with
+  | POk rx => let d := mkR $"(a+)" 0 rx $"<b>$$1</b>" RfNone in
+              (rdef_term d = false) /\ (spans_render 50 (mkIenv 0 [] [] [d] []) ($"aaa") = Fuel)
+  | _ => False
+  end.
+Proof. vm_compute. split; reflexivity. Qed.
 
 Example C02_ex : Nat.leb 60 (length all_regexes) = true.
 Proof. exact table_regex_count. Qed.
